@@ -235,10 +235,44 @@ def c08_r4(ctx):
         return deep(cs[0].args[idx]) if len(cs) == 1 else None
     sv = call_arg("add_field", 2)
     cv = call_arg("add_column_value", 2)
-    has_custom = sv is not None and any(A.eq(x, CUSTOM) for x in ast.walk(sv) if isinstance(x, ast.Call))
-    ctx.ob(f, has_custom, "customval = fields.get('_stored_<name>', value)", detail=norm.canon(sv) if sv is not None else "add_field call not found")
-    ctx.ob(f, sv is not None and A.eq(sv, "(%s if %s.stored else None)" % (CUSTOM, FIELD)), "stored value = customval iff field.stored",
-           detail=norm.canon(sv) if sv is not None else "")
+    fa0 = guards.Facts(f)
+
+    def branch_values(name):
+        """deep value -> facts, for every assignment to the local `name`"""
+        out = {}
+        for n_ in fa0.g.nodes:
+            a_ = n_.ast
+            if n_.kind == "stmt" and isinstance(a_, ast.Assign) and len(a_.targets) == 1 and isinstance(a_.targets[0], ast.Name) and a_.targets[0].id == name:
+                out[id(a_)] = (deep(a_.value), fa0.at(n_) or frozenset())
+        return list(out.values())
+
+    def dfact0(facts, pol, pattern):
+        for (p_, t) in facts:
+            if p_ != pol:
+                continue
+            try:
+                e = deep(norm.parse_expr(t))
+            except SyntaxError:
+                continue
+            if A.eq(e, pattern):
+                return True
+        return False
+    svs = []
+    cs_ = [c for c in norm.calls_in(f.node) if norm.call_name(c) == "add_field" and len(c.args) > 2]
+    if len(cs_) == 1 and isinstance(cs_[0].args[2], ast.Name):
+        svs = branch_values(cs_[0].args[2].id)
+    elif sv is not None:
+        svs = [(sv, frozenset())]
+    has_custom = any(A.eq(x, CUSTOM) for (v_, _) in svs for x in ast.walk(v_) if isinstance(x, ast.Call))
+    ctx.ob(f, has_custom, "customval = fields.get('_stored_<name>', value)", detail=str([norm.canon(v_) for v_, _ in svs]))
+    stored_ok = False
+    if len(svs) == 1:
+        stored_ok = A.eq(svs[0][0], "(%s if %s.stored else None)" % (CUSTOM, FIELD))
+    elif len(svs) == 2:
+        yes = [v_ for v_, fs in svs if dfact0(fs, "T", FIELD + ".stored")]
+        no = [v_ for v_, fs in svs if dfact0(fs, "F", FIELD + ".stored")]
+        stored_ok = len(yes) == 1 and len(no) == 1 and A.eq(yes[0], CUSTOM) and norm.canon(no[0]) == "None"
+    ctx.ob(f, stored_ok, "stored value = customval iff field.stored", detail=str([(norm.canon(v_), sorted(fs)) for v_, fs in svs]))
     ctx.ob(f, cv is not None and A.eq(cv, "%s.to_column_value(%s)" % (FIELD, CUSTOM)), "column value = field.to_column_value(customval)",
            detail=norm.canon(cv) if cv is not None else "")
     fa = guards.Facts(f)
